@@ -209,8 +209,14 @@ class _LegacyRecordBatchPy(LegacyRecordBase, LegacyRecordBatchProtocol):
         buffer_len = len(self._buffer)
         while pos < buffer_len:
             header = self._read_header(pos)
+            length = header[1]
+            if length < self.RECORD_OVERHEAD_V0:
+                # Would not advance (or go backwards) otherwise
+                raise CorruptRecordException(
+                    f"Message size {length} is less than the minimum record overhead"
+                )
             msgs.append((header, pos))
-            pos += self.LOG_OVERHEAD + header[1]  # length
+            pos += self.LOG_OVERHEAD + length
         return msgs
 
     def _read_key_value(self, pos: int) -> tuple[bytes | None, bytes | None]:
